@@ -217,6 +217,35 @@ def rule_laws(ctx):
 MUTATORS = {"append", "extend", "insert", "sort", "reverse", "remove", "pop", "clear", "update", "add", "setdefault"}
 
 
+def _mutated_params(g, seen=None):
+    """indices of the positional parameters that function `g` mutates in place (mutator call, subscript store / delete, augmented
+    assignment on the bare parameter before any rebinding), following calls to functions of the same module one level down"""
+    seen = seen or set()
+    if g.fq in seen:
+        return set()
+    seen = seen | {g.fq}
+    ps = [a.arg for a in g.node.args.posonlyargs + g.node.args.args]
+    live = set(ps)
+    out = set()
+    for st in statements(g.node):
+        if isinstance(st, ast.Assign) and len(st.targets) == 1 and isinstance(st.targets[0], ast.Name) and st.targets[0].id in live:
+            live.discard(st.targets[0].id)         # rebound: later mutations are on a new object
+            continue
+        if isinstance(st, ast.AugAssign) and isinstance(st.target, ast.Name) and st.target.id in live:
+            out.add(ps.index(st.target.id))
+        for c in ast.walk(st) if not isinstance(st, (ast.For, ast.If, ast.While, ast.With, ast.Try)) else []:
+            if isinstance(c, ast.Call) and isinstance(c.func, ast.Attribute) and c.func.attr in MUTATORS and isinstance(c.func.value, ast.Name) and c.func.value.id in live:
+                out.add(ps.index(c.func.value.id))
+            if isinstance(c, ast.Subscript) and isinstance(c.ctx, (ast.Store, ast.Del)) and isinstance(c.value, ast.Name) and c.value.id in live:
+                out.add(ps.index(c.value.id))
+            if isinstance(c, ast.Call) and isinstance(c.func, ast.Name) and c.func.id in g.module.functions:
+                h = g.module.functions[c.func.id]
+                for i in _mutated_params(h, seen):
+                    if i < len(c.args) and isinstance(c.args[i], ast.Name) and c.args[i].id in live:
+                        out.add(ps.index(c.args[i].id))
+    return out
+
+
 def rule_readonly(ctx, R="C24.read-only"):
     n = 0
     for ref in ("cross_block:MultiCrossBlock.__init__", "cross_block:CrossBlock.__init__", "cross_block:Repeat.__init__", "cross_block:Merge.__init__",
@@ -260,6 +289,15 @@ def rule_readonly(ctx, R="C24.read-only"):
                     r = rooted(c.value)
                     if r is not None and not ast.unparse(c.value).startswith("self."):
                         bad.append((st, "%s[...] (aliases %s)" % (ast.unparse(c.value), r)))
+                # a helper of the module that mutates the list it is handed (append / += / item store on its parameter)
+                if isinstance(c, ast.Call) and isinstance(c.func, ast.Name) and c.func.id in f.module.functions:
+                    h = f.module.functions[c.func.id]
+                    for i in sorted(_mutated_params(h)):
+                        if i < len(c.args):
+                            r = rooted(c.args[i])
+                            if r is not None and not ast.unparse(c.args[i]).startswith("self."):
+                                bad.append((st, "%s through %s(), which mutates its parameter `%s` in place (aliases %s)" % (
+                                    ast.unparse(c.args[i]), h.name, [a.arg for a in h.node.args.posonlyargs + h.node.args.args][i], r)))
         # a parameter list that is mutated in place (append / += on the parameter itself) also mutates the caller's list -- or the shared default
         for st in statements(f.node):
             for c in ast.walk(st) if not isinstance(st, (ast.For, ast.If, ast.While, ast.With, ast.Try)) else []:
